@@ -708,6 +708,7 @@ func replayCtl(b vh.Behaviour, res *vh.Result) {
 					w.stopped[in.State.Height] = true
 				}
 			}
+			delete(w.stopped, h)
 			if err := w.ctrl.StartNewInstance(logger, h, tu.TestingQBFTFullData); err != nil {
 				diverge(res, b.ID, i, "CStart", "ok", err.Error())
 			}
